@@ -15,7 +15,7 @@ use std::path::{Path, PathBuf};
 use super::c10::circuit_json;
 
 fn work_dir() -> PathBuf {
-    let d = PathBuf::from(crate::util::VERIF_DIR).join(".work").join(format!("c11-{}", std::process::id()));
+    let d = crate::util::verif_dir().join(".work").join(format!("c11-{}", std::process::id()));
     let _ = std::fs::create_dir_all(&d);
     d
 }
@@ -384,7 +384,7 @@ pub fn run(ctx: &Ctx) -> i32 {
     }
     samples.truncate(3);
     // the shipped Bristol examples are valid bases too
-    if let Ok(rd) = std::fs::read_dir(Path::new(corpus::REPO).join("bristol_examples")) {
+    if let Ok(rd) = std::fs::read_dir(corpus::repo().join("bristol_examples")) {
         for e in rd.flatten() {
             if let Ok(t) = std::fs::read_to_string(e.path()) {
                 if t.len() < 20_000 {
